@@ -173,6 +173,10 @@ pub fn run(ctx: &Ctx, rep: &mut Report) {
             if wi % 2 == 0 {
                 p.join_numeric = Some(true);
             }
+            // now and then a tall stack: dictionary numbers 8 and above have the top bit of the word id set
+            if wi % 8 == 3 {
+                p.n_users = 8 + rng.below(7);
+            }
             crate::scen::build_world_from(&mut rng, &dopts, matrix, sys, p, Place::Owned)
         }) {
             Ok(Ok(w)) => w,
@@ -274,7 +278,7 @@ pub fn run(ctx: &Ctx, rep: &mut Report) {
                         rep.count("python_driver_errors", 1);
                     }
                 } else if let Ok(v) = serde_json::from_str::<Value>(stdout.trim()) {
-                    for k in ["cases", "morphemes", "fields_compared", "splits_compared", "lookups", "history_ops", "history_probes", "python_exceptions", "thread_results", "projection_checks", "pretokenizer_calls", "py_builds", "override_checks", "word_infos_compared", "list_api_checks", "split_out_checks", "lookup_split_checks", "field_split_checks"] {
+                    for k in ["cases", "morphemes", "fields_compared", "splits_compared", "lookups", "history_ops", "history_probes", "python_exceptions", "thread_results", "projection_checks", "pretokenizer_calls", "py_builds", "override_checks", "word_infos_compared", "list_api_checks", "split_out_checks", "lookup_split_checks", "field_split_checks", "pretokenizer_field_checks"] {
                         rep.count(&format!("py_{}", k), v[k].as_u64().unwrap_or(0));
                     }
                     if let Some(ms) = v["mismatches"].as_array() {
